@@ -417,7 +417,8 @@ func fxMsgTypes(reg codectypes.InterfaceRegistry) []msgType {
 		add(u)
 	}
 	// claims / confirms travel inside MsgClaim / MsgConfirm: validated (or not) through the wrapper
-	for _, iface := range []string{"gravity.v1beta1.ExternalClaim", "gravity.v1beta1.Confirm"} {
+	// ... and legacy gov Content implementations travel inside cosmos.gov.v1beta1.MsgSubmitProposal, whose handler calls content.ValidateBasic()
+	for _, iface := range []string{"gravity.v1beta1.ExternalClaim", "gravity.v1beta1.Confirm", "cosmos.gov.v1beta1.Content"} {
 		for _, u := range reg.ListImplementations(iface) {
 			add(u)
 		}
